@@ -40,14 +40,14 @@ fn add_runs(rng: &mut Rng, case: &mut Case, tier: Tier) {
 fn generate(rng: &mut Rng, tier: Tier, cases: &mut Vec<Case>) {
     let scale = match tier {
         Tier::Quick => 1,
-        Tier::Thorough => 5,
+        Tier::Thorough => 4,
     };
     let mk = |rng: &mut Rng, w: usize, h: usize, nk: u64, ek: u64| -> Graph {
         let s = GridSpec { w, h, node_keep: nk, edge_keep: ek, diag: 0, chord: 0, base: *rng.pick(&BASES), swap: rng.chance(1, 2), rot: rng.chance(1, 4), order: rng.below(3) as u8 };
         gen_grid(rng, &s)
     };
     // many small cells: wide job queues (outer parallelism) and four concurrent axes per job (inner)
-    for i in 0..(6 * scale) {
+    for i in 0..(14 * scale) {
         let (w, h) = (8 + rng.below(10) as usize, 8 + rng.below(10) as usize);
         let g = mk(rng, w, h, 930, 900);
         let r = 4 + rng.below(6) as u32;
@@ -58,7 +58,7 @@ fn generate(rng: &mut Rng, tier: Tier, cases: &mut Vec<Case>) {
         cases.push(c);
     }
     // few large cells: long Dinic runs, many yield points, the shared bound matters
-    for _ in 0..(3 * scale) {
+    for _ in 0..(6 * scale) {
         let (w, h) = (14 + rng.below(8) as usize, 14 + rng.below(8) as usize);
         let g = mk(rng, w, h, 950, 930);
         let r = 2 + rng.below(4) as u32;
@@ -69,7 +69,7 @@ fn generate(rng: &mut Rng, tier: Tier, cases: &mut Vec<Case>) {
         cases.push(c);
     }
     // thin and deep
-    for _ in 0..(2 * scale) {
+    for _ in 0..(4 * scale) {
         let len = 30 + rng.below(40) as usize;
         let g = mk(rng, len, 2, 1000, 900);
         let r = 20 + rng.below(12) as u32;
@@ -79,7 +79,7 @@ fn generate(rng: &mut Rng, tier: Tier, cases: &mut Vec<Case>) {
         cases.push(c);
     }
     // denser graphs: bigger cuts, the bound aborts more runs
-    for _ in 0..(2 * scale) {
+    for _ in 0..(4 * scale) {
         let (w, h) = (8 + rng.below(6) as usize, 8 + rng.below(6) as usize);
         let s = GridSpec { w, h, node_keep: 950, edge_keep: 950, diag: 700, chord: 300, base: *rng.pick(&BASES), swap: false, rot: false, order: 1 };
         let g = gen_grid(rng, &s);
